@@ -8,7 +8,7 @@ From Coq Require Import NArith List Bool Arith String Lia.
 From DBG Require Import Gen.SourceConsts Spec.Dna Spec.GraphIndex Spec.ExportSpec Packed.DnaStringModel
   Algo.GraphModel Algo.Json Algo.Export Algo.Serde Check.ExportCheck
   Proofs.JsonProofs Proofs.ExportJsonProofs Proofs.ExportGfaProofs Proofs.ExportProofs Proofs.ExportEdgesProofs Proofs.ExportOverlapProofs Proofs.ExportCheckProofs
-  Proofs.ExportRefuted Proofs.SerdeProofs.
+  Proofs.ExportRefuted Proofs.SerdeProofs Proofs.SerdeNodesProofs.
 Import ListNotations.
 Local Open Scope nat_scope.
 
@@ -179,6 +179,21 @@ Theorem C20_queries_after_roundtrip : forall (D : Type) (enc_d : D -> jtree) (de
   (forall id d, find_edges D K (bg_stranded D g') (bg_nodes D g') id d = find_edges D K (bg_stranded D g) (bg_nodes D g) id d).
 Proof. exact queries_after_roundtrip. Qed.
 Print Assumptions C20_queries_after_roundtrip.
+
+(* The record BaseGraph::add builds from well-formed nodes (bases packed 32 per u64 word, start/length vectors)
+   denotes exactly those nodes; hence a graph that is persisted and read back answers find_link / find_edges as
+   the original nodes do. *)
+Theorem C20_bg_of_nodes_nodes : forall (D : Type) stranded (ns : graph D), wf_nodes D ns ->
+  exists b, bg_of_nodes D stranded ns = Some b /\ bg_nodes D b = ns /\ bg_stranded D b = stranded.
+Proof. exact bg_of_nodes_nodes. Qed.
+Print Assumptions C20_bg_of_nodes_nodes.
+Theorem C20_persisted_graph_queries : forall (D : Type) (enc_d : D -> jtree) (dec_d : jtree -> option D) (K : nat) stranded (ns : graph D),
+  (forall d, dec_d (enc_d d) = Some d) -> wf_nodes D ns ->
+  exists b b', bg_of_nodes D stranded ns = Some b /\ dec_bgraph D dec_d (enc_bgraph D enc_d b) = Some b' /\
+    (forall kmer d, find_link D K (bg_stranded D b') (bg_nodes D b') kmer d = find_link D K stranded ns kmer d) /\
+    (forall id d, find_edges D K (bg_stranded D b') (bg_nodes D b') id d = find_edges D K stranded ns id d).
+Proof. exact persisted_graph_queries. Qed.
+Print Assumptions C20_persisted_graph_queries.
 
 (* ------------------------------------------------------------------ non-vacuity *)
 (* a graph with a right-side hairpin satisfies the hypothesis, and its link is written once *)
